@@ -36,7 +36,7 @@ def handler (mode : String) (line : String) : String :=
                       match obs? ot with
                       | some o =>
                           -- besides the property: the model's negotiate must agree with the RFC-level reading of the
-                          -- capability sets that the spec uses (hypothesis `negAgree` of the master theorem)
+                          -- capability sets that the spec uses (theorem `negotiate_agrees`; re-checked here on every case)
                           let agree : Bool := match i.msg with
                             | .reach f .. | .unreach f _ => !Spec.buildable i || Spec.negAgree i f
                             | _ => true
@@ -48,9 +48,6 @@ def handler (mode : String) (line : String) : String :=
               | none => "(bad-case)"
           | none => "(bad-line)"
       | _ => "(bad-line)"
-  | "t-split" => toString (line.splitOn "\t").length
-  | "t-parse" => match parse line with | some _ => "parsed" | none => "noparse"
-  | "t-obs" => match (parse line).bind obs? with | some _ => "obs" | none => "noobs"
   | _ => "(bad-mode)"
 
 end Rbgp.C04
